@@ -234,8 +234,17 @@ def run(ctx):
                 return True
         return False
 
+    def root_name(name):
+        """the name a chain of plain copies (`text = t0`) starts from"""
+        seen_ = set()
+        while name in sval and isinstance(sval[name], ast.Name) and name not in seen_:
+            seen_.add(name)
+            name = sval[name].id
+        return name
+
     def is_text_of_value(name):
         """name is the parameter or str(parameter) (re-bound or under another name)"""
+        name = root_name(name)
         if name == vparam:
             return True, any(isinstance(n_, ast.Assign) and dotted(n_.targets[0]) == vparam and isinstance(n_.value, ast.Call) and dotted(n_.value.func) == "str"
                              for n_ in ast.walk(sx))
@@ -279,7 +288,7 @@ def run(ctx):
         bound = None
         if isinstance(k, int):
             bound = {("Gt", False): k, ("GtE", False): k - 1, ("LtE", True): k, ("Lt", True): k - 1}.get((op, outcome))
-        if measured != w:
+        if root_name(measured) != root_name(w):
             probs.append("the 255 limit is applied to len(%s), not to the number of characters of the string: strings of up to 255 characters "
                          "can be refused (or longer ones accepted)" % measured)
         elif bound is None:
